@@ -118,7 +118,9 @@ def make_game():
     g = game.Game.make_empty_game(filename='x.p8')
     g.lua.update_from_lines([b'x = 1\n', b'print(x)\n'])
     return g
-def attempt(desc, ext, exists, fn):
+def attempt(desc, ext, exists, fn, source_fails=False):
+    # source_fails: the cart cannot be produced (one of the failure sources the statement names) -- the destination has to stay as it
+    # was whether or not the failure surfaces as an exception
     global n
     n += 1
     dest = os.path.join(work, 'dest%d%s' % (n, ext))
@@ -132,11 +134,11 @@ def attempt(desc, ext, exists, fn):
         failed = False
     except BaseException as e:
         failed = True
-    if failed:
+    if failed or source_fails:
         after = open(dest, 'rb').read() if os.path.exists(dest) else None
         if after != before:
             bad.append([desc, ext, exists, 'destination %s' % ('was created (%d bytes)' % len(after) if before is None else
-                        'changed' if after is not None else 'was removed')])
+                        'changed' if after is not None else 'was removed') + ('' if failed else ' although the call returned normally')])
     return failed
 for ext in ('.p8', '.p8.png'):
     for exists in (False, True):
@@ -154,13 +156,14 @@ for ext in ('.p8', '.p8.png'):
                 if not attempt('fault at stream write %d (%s)' % (k, exc.__name__), ext, exists, run):
                     break          # k beyond the number of writes: the write succeeded
                 k += 1
-        attempt('Lua writer raises', ext, exists, lambda dest: pfile.to_file(make_game(), dest, lua_writer_cls=BadWriter))
-        attempt('transformed Lua does not re-parse', ext, exists, lambda dest: pfile.to_file(make_game(), dest, lua_writer_cls=UnparsableWriter))
+        attempt('Lua writer raises', ext, exists, lambda dest: pfile.to_file(make_game(), dest, lua_writer_cls=BadWriter), True)
+        attempt('transformed Lua does not re-parse', ext, exists, lambda dest: pfile.to_file(make_game(), dest, lua_writer_cls=UnparsableWriter),
+                ext == '.p8')          # only the .p8 encoder re-parses what it wrote; the .p8.png encoder produces the cart
         def badversion(dest):
             g = make_game(); g.version = 300 if ext == '.p8.png' else object()
             g.gfx = None if ext == '.p8' else g.gfx
             pfile.to_file(g, dest)
-        attempt('section / version encoder raises', ext, exists, badversion)
+        attempt('section / version encoder raises', ext, exists, badversion, True)
 shutil.rmtree(work, ignore_errors=True)
 print(json.dumps({'n': n, 'bad': bad[:8]}))
 '''
@@ -177,8 +180,7 @@ def native(K):
     return json.loads(r.stdout)
 
 
-def run(tier, seed):
-    chk = Check('C11', 'proof', tier, seed)
+def deductive(chk):
     fn = source.find_function(TO_FILE)
     chk.functions.append({'function': TO_FILE, 'file': 'pico8/game/file.py', 'line': fn.line, 'sha256': fn.sha, 'paths': 0, 'ints': '-'})
     # ---- effect-order contract of file.to_file
@@ -197,7 +199,7 @@ def run(tier, seed):
         outs = effects.Paths().function(fn.node)
     except (NotImplementedError, effects.TooManyPaths) as e:
         chk.undecide('file.to_file left the subset of the effect analysis: %r' % (e,))
-        return chk.finish()
+        return
     chk.functions[0]['paths'] = len(outs)
     enc_call = [e for _, t in outs for e in t if e[0] == 'call' and e[1].endswith('.to_file')]
     enc_names = sorted({e[1] for e in enc_call})
@@ -234,7 +236,7 @@ def run(tier, seed):
     missing = [q for q in ENCODERS + CALLERS if q not in funcs]
     if missing:
         chk.undecide('functions not found: %s' % missing)
-        return chk.finish()
+        return
     reach_set = reachable(ENCODERS, funcs) - {TO_FILE}
     bad = scan(reach_set, funcs)
     ground.account(chk, [('SCAN:encoders/the %d repository functions reachable from P8Formatter.to_file and P8PNGFormatter.to_file contain no '
@@ -246,6 +248,11 @@ def run(tier, seed):
     ground.account(chk, [('SCAN:callers/writep8, luamin, luafmt, process_game_files and do_build contain no path-modifying primitive and reach '
                           'the destination only through file.to_file', not cbad and not through, str((cbad + through)[:4]))], 'SCAN')
     chk.extra['reachable_from_encoders'] = sorted(reach_set)[:80]
+
+
+def run(tier, seed):
+    chk = Check('C11', 'proof', tier, seed)
+    deductive(chk)
     # ---- bounded native fault injection (also the replay of a failed obligation)
     nat = native(400 if tier == 'thorough' else 60)
     if nat.get('timeout') or nat.get('error'):
